@@ -85,7 +85,7 @@ def _(p):
             for out in ("pandas", "numpy", "sparse"):
                 if p.get("legs") == "sparse+arrow" and not (out == "sparse" or dname == "arrow"):
                     continue
-                for entry in (("model_matrix", "materializer", "ModelSpec+overrides") if p.get("legs") else ("model_matrix", "Formula", "ModelSpec", "ModelSpec+overrides", "materializer")):
+                for entry in (("model_matrix", "materializer", "ModelSpec+overrides", "materialized ModelSpec") if p.get("legs") else ("model_matrix", "Formula", "ModelSpec", "ModelSpec+overrides", "materialized ModelSpec", "materializer")):
                     opts = dict(ensure_full_rank=efr, output=out)
                     if mat:
                         opts["materializer"] = mat
@@ -95,6 +95,9 @@ def _(p):
                         mm = Formula(formula).get_model_matrix(data, **opts, **call())
                     elif entry == "ModelSpec":
                         mm = ModelSpec.from_spec(Formula(formula), **opts).get_model_matrix(data, **call())
+                    elif entry == "materialized ModelSpec":
+                        built = ModelSpec.from_spec(Formula(formula), **opts).get_model_matrix(data, **call())
+                        mm = built.model_spec.get_model_matrix(data, **call())
                     elif entry == "ModelSpec+overrides":
                         mm = ModelSpec.from_spec(Formula(formula), output="numpy" if out == "pandas" else "pandas").get_model_matrix(data, **call(), **opts)
                     else:
